@@ -8,7 +8,7 @@ BASE_OFF = "cd /repo && /venv/bin/python -m pytest -ra -q -p no:cacheprovider --
 TB = "Trusted: Lean 4.33 kernel, axioms {propext, Classical.choice, Quot.sound} (audited every run), Mathlib v4.33, the Lean compiler/runtime running the model driver, harness/*.py (correspondence, shims, statistics). "
 
 CHECKS = {
-    "C01": ("proof", "Lean theorems over the discovery model for every series/estimator/permutation stream/method: lagged_entry (row r = time max_lag+r, predictor delayed by exactly tau), label bijection, edge_semantics (cmi = est(lagged u, target v | other reported parents)), pvalue_formula (fraction of X-row-shuffled surrogates >= cmi); end-to-end (Master.lean): discover_parent_tests / discover_edges_of_survivors / discover_spec state these about the value returned by the model's discover, every reported parent having one passed forward and one passed backward shuffle test with p <= alpha+1/n, under the permutation hypothesis PermOK that is checked on every recorded run. Tied to discover_network by exact replay of the real run (recorded permutation stream, scripted rational estimator on coded series that identify (variable,time) of every array entry) plus recomputation of each real edge's cmi with the public dispatcher.",
+    "C01": ("proof", "Lean theorems over the discovery model for every series/estimator/permutation stream/method: lagged_entry (row r = time max_lag+r, predictor delayed by exactly tau), label bijection, edge_semantics (cmi = est(lagged u, target v | other reported parents)), pvalue_formula (fraction of X-row-shuffled surrogates >= cmi); end-to-end (Master.lean): discover_parent_tests / discover_edges_of_survivors / discover_spec state these about the value returned by the model's discover, every reported parent having one passed forward and one passed backward shuffle test with p <= alpha+1/n, under the permutation hypothesis PermOK that is checked on every recorded run. Tied to discover_network by exact replay of the real run (recorded permutation stream, scripted rational estimator on coded series that identify (variable,time) of every array entry) plus recomputation of each real edge's cmi with the public dispatcher. Translator (every run): the slices that build the lagged design, the own-history block and the target matrix, the loop nest and the (variable, lag) labelling are REGENERATED from the source and must give, for all max_lag, tau, T and rows, exactly the model's alignment (ObC01: ring / decide).",
             "Modelled not verified: NumPy slicing/column_stack, Generator stream (recorded), LASSO selections (oracle with checked range). 'Agrees with an independent permutation estimate up to sampling error' is a measurement (Hoeffding, budget 1e-9).",
             "Lean 4 proof on executable discovery model + exact event-trace correspondence on coded series"),
     "C02": ("proof", "Lean refinement theorems: for ALL landscapes f, verdict oracles (stateful allowed) and backward visiting orders, the code-shaped standard/alternative forward phases, the backward phase and their composition satisfy the declarative oCSE rule (arg-max among undecided given initial+accepted, accept iff pass, std continues / alt stops, each accepted re-tested once against current survivors, levels alpha_f/alpha_b); consequences: result duplicate-free subset, one edge per survivor; end-to-end (Master.lean): discover_target_spec — the parents reported by the model's discover for each target are the survivors of the declarative rule on that target's own oracles and stream block. Tie: the real functions driven by scripted oracles, EXHAUSTIVE decision-tree enumeration for <=3 candidates (all weak orderings x verdicts x visiting orders), sampled to 8 candidates incl. NaN/tie-heavy landscapes; every implementation trace is replayed through the model and judged by the declarative checker specOK.",
@@ -38,13 +38,13 @@ CHECKS = {
     "C10": ("proof", "Lean theorems: kNN MI/CMI invariant under joint row permutation, X<->Y swap and Z column permutation (exact over Q), Gaussian ratio invariant under row permutation / swap / column order, KDE entropies invariant for uninterpreted exp/log; Poisson unconditional MI: closed form over the entropy vector, invariant under variable permutation / swap / column order for ANY entropy function, with poissonMI_symm_needed showing the conditional path's asymmetry is real; geometric-kNN MI/CMI: row permutation, X<->Y swap and Z-column order proved for the mathematical SVD-based correction (…_real in C10GeomSvd.lean: a coordinate permutation is rotOf of a permutation matrix, corrMath_rot), and for an arbitrary correction functional given its invariance (…_partial). Tie: Poisson unconditional path also compared with the model value;  metamorphic check on the real functions (all estimators, conditional and unconditional paths, row permutations, all Z column permutations, swap) at 1e-9 relative, purity (equal arguments equal results, arguments unmodified).",
             "LAPACK's floating-point SVD = the mathematical SVD is outside the theorems (tied numerically by C12's spectral tie). One open known finding (Poisson conditional path).",
             "Lean 4 invariance proofs + metamorphic testing of the implementation"),
-    "C11": ("proof", "Lean theorems over Q: psi_free (for ANY psi with the digamma recurrence the KSG MI/CMI equal gamma-free harmonic-number forms), code_eq_spec (sort-whole-row/index-k/count-minus-one = k-th nearest OTHER sample / count of OTHER samples strictly inside, under tie-freeness, which is forced). KDE: definition = documented formula (thin), signed sums. Tie: exact rational value vs float result (1e-9) with near-tie filter; KDE Float evaluation of the same polymorphic definition vs sklearn-based implementation.",
+    "C11": ("proof", "Lean theorems over Q: psi_free (for ANY psi with the digamma recurrence the KSG MI/CMI equal gamma-free harmonic-number forms), code_eq_spec (sort-whole-row/index-k/count-minus-one = k-th nearest OTHER sample / count of OTHER samples strictly inside, under tie-freeness, which is forced). KDE: definition = documented formula (thin), signed sums. Tie: exact rational value vs float result (1e-9) with near-tie filter; KDE Float evaluation of the same polymorphic definition vs sklearn-based implementation. Translator (every run): the radius construction and the strict counts are recognised and the digamma formulas of both kNN estimators are REGENERATED from the source as Lean terms in an arbitrary psi and proved equal to the model's knnMIψ / knnCMIψ for all psi, metrics, k and samples (ObC11).",
             "digamma at integers = harmonic numbers (recurrence hypothesis; scipy trusted); sklearn KernelDensity bandwidth rules mirrored; float rounding by tolerance.",
             "Lean 4 proof + exact-rational brute-force evaluation"),
     "C12": ("proof", "Lean theorems over R with Mathlib's singular values: the local correction is DEFINED mathematically (corrMath: ellipsoid count via the basis-free quadratic form z^T (Y^T Y)^-1 z <= 1, guarded log singular-value ratios) and geom_laws_real proves translation, rotation (unconditional), scaling (+ d log a, under guard-inactivity) and sample-order invariance of the whole estimator with no hypothesis about the correction; inEll_iff_svd_sum shows the SVD-based sum of the code equals the quadratic form for EVERY right singular basis; MI/CMI are the documented signed sums with clamp. Tie: independent reference evaluation of the published formula (own Jacobi SVD, no LAPACK) vs the real function at 1e-8; the four laws checked directly on the real function with the predicted deltas; neighbour/Y_i/Z_i seams vs the exact rational model; spectral tie: LAPACK's singular values vs exact symmetric polynomials (principal minors of Y^T Y) and every hyperellipsoid_check decision vs the exact Cramer quadratic form; distance matrices overwritten in place between calls. Since the repair 7d4df49 the rank decision on sigma_l is relative to sigma_0 and the scaling law needs the guard hypothesis on sigma_0 only (corrMath_scale_sigma0, geom_scale_svd_sigma0); ratioTermAbs_not_scale_invariant is the negative witness for the pre-fix absolute threshold.",
             "LAPACK's floating-point SVD = the mathematical SVD, and log/sqrt rounding, are outside the theorems (numerically tied). For k < d the Gram matrix is singular and the code's ellipsoid count is rounding noise: the mathematical model is not claimed faithful there and the laws are decided by the direct metamorphic check and the reference only.",
             "Lean 4 proof (Mathlib singular values) + exact spectral tie + independent reference evaluation + metamorphic laws"),
-    "C13": ("proof", "Lean theorems for any ordered field and abstract pmf: loop_invariant/run_closed_form (the while loop equals the closed form), cont_mono/stop_index_mono (a vector call runs at least the terms of every scalar call), vector_is_scalar_plus_tail, tail_bound, elementwise_independent, zero-rate entries exactly 0, joint_def; negative witness for the pinned min rule. Tie: Float instance of the same definition + independent log-space reference vs poisson_entropy on a dense grid [0,500], tiny rates, mixed vectors/matrices; joint entropy exact.",
+    "C13": ("proof", "Lean theorems for any ordered field and abstract pmf: loop_invariant/run_closed_form (the while loop equals the closed form), cont_mono/stop_index_mono (a vector call runs at least the terms of every scalar call), vector_is_scalar_plus_tail, tail_bound, elementwise_independent, zero-rate entries exactly 0, joint_def; negative witness for the pinned min rule. Tie: Float instance of the same definition + independent log-space reference vs poisson_entropy on a dense grid [0,500], tiny rates, mixed vectors/matrices; joint entropy exact. Translator (every run): both tolerances, strictness and reductions of the while condition, the update of `small` and the 0 log 0 mask are read off the source and must be the model's (ObC13: decide).",
             "Absolute accuracy 1e-9 against the infinite series (c13_accuracy_partial) is checked numerically only (needs Poisson tail bounds and SciPy's pmf error).",
             "Lean 4 proof (loop invariant) + reference evaluation"),
     "C14": ("proof", "Lean theorems on the converters: membership/locality characterisations, edges per mark with value/p/significant, errors, graph_roundtrip for every graph with unique (source,target,lag) and mirrored symmetric pairs, pcmci_roundtrip_partial (patterns without '<--'), negative witnesses for '<--' (open known finding). Link-type tables regenerated from the AST (obligation). Tie: both converters and both compositions vs the model; consistent patterns exhaustive for 2 nodes x lags {0,1}; random patterns to 5 nodes x 4 lags; malformed stream.",
